@@ -2,7 +2,7 @@
    check_allowlist_violations (scanner/directory.rs:234-315), the placement half of
    process_directory (:317-396), the list tests of scanner/allowlist.rs and
    scanner/structure_config.rs, and find_matching_allowlist_rule (structure_config.rs:326).
-   Faithful to the code, first-match rule selection included (D6). Definitions only. *)
+   Rule selection is last-declared-match (the D6 repair, fixes/D06-placement-last-match.patch). Definitions only. *)
 From Coq Require Import ZArith NArith List Bool.
 From SG Require Import Structure.Tree Structure.Names Structure.Config.
 Import ListNotations.
@@ -76,9 +76,10 @@ Fixpoint zip3 (rs : list (Z * srule)) (sc : list bool) (rcs : list rcols) : list
       (i, r, hd false sc, hd rcols0 rcs) :: zip3 rs' (tl sc) (tl rcs)
   end.
 
-(* find_matching_allowlist_rule: the FIRST placement rule whose scope matches the directory *)
+(* find_matching_allowlist_rule: the LAST declared rule whose scope matches the directory
+   (iter().rev().find) *)
 Definition find_rule (cfg : config) (scope : list bool) (rcs : list rcols) : option (Z * srule * rcols) :=
-  match find (fun x => snd (fst x)) (zip3 (placement_rules cfg) scope rcs) with
+  match find (fun x => snd (fst x)) (rev (zip3 (placement_rules cfg) scope rcs)) with
   | Some (i, r, _, rc) => Some (i, r, rc)
   | None => None
   end.
